@@ -83,9 +83,6 @@ func (rl *RangeLoop) Iterate() inspector.LoopCtl {
 			lerr = err
 		}
 		if err == ErrBreakLoop {
-			if rl.ctx.brkD > 0 {
-				rl.ctx.brkD--
-			}
 			return inspector.LoopCtlBrk
 		}
 		if err == ErrContLoop {
@@ -97,9 +94,6 @@ func (rl *RangeLoop) Iterate() inspector.LoopCtl {
 		}
 	}
 	if err == ErrBreakLoop || lerr == ErrLBreakLoop {
-		if rl.ctx.brkD > 0 {
-			rl.ctx.brkD--
-		}
 		return inspector.LoopCtlBrk
 	}
 	return inspector.LoopCtlNone
